@@ -16,6 +16,10 @@ HARNESSES = [
     S('S_resume', 'H_RESUME', ['_dispatch_lane_resume'], 'real _dispatch_lane_resume + _resume_slow: all states with count >= 1: total count -1; resume to zero restarts the queue'),
     S('S_suspended_blocks', 'H_BLOCKED', ['_dispatch_queue_drain_try_lock', '_dispatch_queue_try_acquire_barrier_sync_and_suspend', '_dispatch_queue_try_reserve_sync_width', '_dispatch_queue_try_acquire_async', '_dispatch_queue_wakeup'],
       'suspended/inactive word: all four acquisitions fail and wakeup does not enqueue'),
+    H('S_barrier_complete_suspended', 'h_susp.c', ['_dispatch_lane_barrier_complete', '__dispatch_tsd', '_dispatch_lane_wakeup', '_dispatch_lane_activate'],
+      stubs=STUBS + ['_dispatch_lane_drain_barrier_waiter', '_dispatch_lane_drain_non_barriers', '_dispatch_lane_class_barrier_complete', '_dispatch_wait_for_enqueuer'], nt=1, heap=1024,
+      defines=['-DH_BC_SUSP', '-DST_INTERFERE=0'], unwind=3, probes=PR, timeout=300, icall_only=['_dispatch_lane_wakeup', '_dispatch_lane_activate'],
+      note='real _dispatch_lane_barrier_complete on a suspended, owner-held queue with one queued item of arbitrary kind: no hand-off'),
 ]
 def _ok(x, inactive=False):
     # resume only when suspended; at most ONE synchronous caller blocked at a time (the sequential model wakes sleepers last-in-first-out, see DESIGN 2.3)
